@@ -82,6 +82,14 @@ def wfHostSA (netloc : Str) : Bool :=
   | '[' :: _ => true
   | h => noneOf ['%'] h
 
+/-- **the exact host condition of the suffix-aware round trip with suffix_trie.py inside**
+(`Props.C12.roundtrip_string_psl`): a bracketed literal (never suffix-processed), or a host that
+neither starts nor ends with a dot.  Outside it suffix_trie.py's split does not re-join to the
+host (it strips trailing dots; `.co.uk` is split into `("", "co.uk")`) and the suffix-aware stems
+lose the empty label: known finding KF-C12-2 -/
+def pslHostOK (h : Str) : Bool :=
+  h.head? == some '[' || (h.head? != some '.' && h.getLast? != some '.')
+
 /-- no `|` anywhere (the hypothesis of C12) -/
 def noBar (p : Parts) : Bool :=
   noneOf ['|'] p.scheme && noneOf ['|'] p.netloc && noneOf ['|'] p.path &&
@@ -181,6 +189,30 @@ instance (f : Str → Str) (u v : Parts) : Decidable (UnderBy f u v) := by
   unfold UnderBy; infer_instance
 
 abbrev Under (u v : Parts) : Prop := UnderBy id u v
+
+/-- `path.split("/")[1:]`: the path segments as `lru_stems` emits them, empty ones included -/
+def rawSegs (path : Str) : List Str := (splitChar '/' path).tail
+
+/-- `UnderBy` for any reading `segs` of the path segments (`cleanSegs`: `UnderBy` itself) -/
+def UnderByG (segs : Str → List Str) (f : Str → Str) (u v : Parts) : Prop :=
+  u.scheme = v.scheme ∧ specPort u.netloc = specPort v.netloc ∧
+  (f (specHost u.netloc) = f (specHost v.netloc) ∨
+    (segs u.path = [] ∧ u.query = [] ∧ u.fragment = [] ∧
+      strictSub (f (specHost u.netloc)) (f (specHost v.netloc)) = true)) ∧
+  (segs u.path = segs v.path ∨
+    (u.query = [] ∧ u.fragment = [] ∧ segs u.path <+: segs v.path)) ∧
+  (u.query = v.query ∨ (u.query = [] ∧ u.fragment = [])) ∧
+  (u.fragment = v.fragment ∨ u.fragment = [])
+
+instance (segs : Str → List Str) (f : Str → Str) (u v : Parts) : Decidable (UnderByG segs f u v) := by
+  unfold UnderByG; infer_instance
+
+/-- **`v` lies under `u`, empty path segments NOT set aside**: as `Under`, but "`v`'s path extends
+`u`'s path by whole segments" is read on the segments as they are (`/a/` has the segments `a` and
+`""`; `/a/b` does not extend it, `/a//b` does).  Implies `Under` (`Props.C13.under_of_underRaw`).
+This is the hierarchy for which the RAW `lru_stems(u)` / `url_to_lru(u)` — empty path stems
+kept — is a prefix of that of `v`. -/
+abbrev UnderRaw (u v : Parts) : Prop := UnderByG rawSegs id u v
 
 /-- the stems of this host are its dot-separated labels: a DNS name (not bracketed, not an
 IPv4 literal / `localhost[:port]`), or a host without any dot -/
